@@ -49,9 +49,6 @@ def run_property(prop: str, repo: str, tier: str, evidence_dir=None, quiet=False
     for c in res.controls:
         if not c.get("matched"):
             problems.append(f"positive control {c.get('name')} did not match")
-    if problems:
-        raise AnalysisError("; ".join(problems))
-
     known = load_known()
     violations, known_hits = [], []
     for o in res.obs:
@@ -62,6 +59,13 @@ def run_property(prop: str, repo: str, tier: str, evidence_dir=None, quiet=False
             known_hits.append({**o.ident(), "what": k.get("what", "")})
         else:
             violations.append(o)
+
+    # a shortfall of analysed instances is an analysis error - unless a definite violation was found anyway, which is
+    # reported as such (the shortfall is then usually the very change that broke the property)
+    if problems and not violations:
+        raise AnalysisError("; ".join(problems))
+    if problems:
+        res.notes.append("instance floors not met (reported as a note because violations were found): " + "; ".join(problems))
 
     selftest = None
     if tier == "thorough":
